@@ -265,3 +265,39 @@ Example C12_ex_rigid : proper_rotation (mid3 ROps).
 Proof. exact proper_id. Qed.
 Example C12_ex_diagonal : gdiagonal 2 (fun i j => if Nat.eqb i j then 3 else 0).
 Proof. intros i j _ _ H. apply Nat.eqb_neq in H. rewrite H. reflexivity. Qed.
+
+(* --- least squares, ANY configured preconditioner (after the repair 870e444: Ac * inv * Ac^T * variance) --- *)
+From Romea Require Import LsCovGeneral.
+(* the reported matrix is variance * A * inv * A^T — the covariance of x = A z + b when Cov(z) = variance * inv — for
+   every matrix A, symmetric or not *)
+Theorem C12_ls_covariance_general : forall n (a inv : mat R) v i j,
+  ls_covariance ROps n a inv v i j = v * rsum n (fun q => rsum n (fun p => a i p * inv p q) * a j q) /\
+  ls_covariance ROps n a inv v = gscale ROps (gmul ROps n (gmul ROps n a inv) (gtrans a)) v.
+Proof. exact ls_covariance_general. Qed.
+Print Assumptions C12_ls_covariance_general.
+
+(* with the oracle contract inv * (J^T J) = I and any left inverse B of A, stripping the preconditioner leaves the data
+   variance times the inverse normal matrix:  (B * cov * B^T) * (J^T J) = variance * I *)
+Theorem C12_ls_covariance_inverse_normal_general : forall m n (jac a b inv : mat R) v,
+  (forall i s, (i < n)%nat -> (s < n)%nat -> gmul ROps n b a i s = delta i s) ->
+  ls_inv_contract n inv (ls_JtJ ROps m n jac) ->
+  forall i k, (i < n)%nat -> (k < n)%nat ->
+    gmul ROps n (gmul ROps n (gmul ROps n b (ls_covariance ROps n a inv v)) (gtrans b)) (ls_JtJ ROps m n jac) i k
+    = if Nat.eqb i k then v else 0.
+Proof. exact ls_covariance_inverse_normal_general. Qed.
+Print Assumptions C12_ls_covariance_inverse_normal_general.
+
+(* the code before the repair (Ac^T * inv * Ac) reports a different matrix for a non-symmetric preconditioner: the shear
+   A = [[1,1],[0,1]] with inv = I and variance 1 gives entry (0,0) = 1 instead of 2 (replayed on the implementation:
+   checks/C12.py, group "least-squares covariance", cases "lsg") *)
+Theorem C12_ls_covariance_transposed_refuted :
+  exists (a inv : mat R),
+    ls_covariance_old ROps 2 a inv 1 0%nat 0%nat <> gscale ROps (gmul ROps 2 (gmul ROps 2 a inv) (gtrans a)) 1 0%nat 0%nat.
+Proof. exact ls_covariance_old_refuted. Qed.
+Print Assumptions C12_ls_covariance_transposed_refuted.
+
+Example C12_ex_ls_general_contract :
+  (forall i s, (i < 2)%nat -> (s < 2)%nat -> gmul ROps 2 ex_shear_inv ex_shear i s = delta i s) /\
+  ls_inv_contract 2 (fun i j => delta i j) (ls_JtJ ROps 2 2 (fun i j => delta i j)) /\
+  ex_shear 0%nat 1%nat <> ex_shear 1%nat 0%nat.
+Proof. exact ex_ls_general_contract. Qed.
